@@ -221,24 +221,19 @@ def make_case(rng, cid, T, depth, fmt, dtag, run="serial", pleaf=None, stale_p=0
             leaves[k] = _leaf_matrix(rng, T, mode, dtag, values, "allu")
     has_data = set(l for l, m in leaves.items() if not _is_allu(m, mode))
     has_finite = any(len(px) == 1 for m in leaves.values() for row in m for px in row) if mode != "Colour" else False
-    # stale files only where the cascade will find a child to merge (DESIGN 5/C02; CaseOK re-checks it in TLC)
-    eligible = set()
-    for n in range(depth):
-        for p in level(n):
-            if any(ancestor(l, n) == p for l in has_data):
-                eligible.add(p)
-            elif n == depth - 1 and keepu and any(ancestor(l, n) == p for l in leaves):
-                eligible.add(p)
-    stale = set()
-    if shape == "all-undefined-parent" or rng.random() < stale_p:
-        stale = set(p for p in eligible if rng.random() < (1.0 if shape == "all-undefined-parent" else 0.6))
     live = set(all_leaves)
     if run.startswith("filter"):
         live = set(leaves) | set(l for l in all_leaves if rng.random() < 0.25)
     if shape == "one-leaf-per-slot":
         live = set(leaves)
+    # stale parent files anywhere the walk comes by (the ancestors of the live leaves): above populated leaves, above
+    # nothing at all (their children "have disappeared"), chains of stale ancestors included
+    eligible = set(ancestor(l, n) for l in live for n in range(depth))
+    stale = set()
+    if shape == "all-undefined-parent" or rng.random() < stale_p:
+        stale = set(p for p in eligible if rng.random() < (1.0 if shape == "all-undefined-parent" else 0.6))
     if mode == "Float":
-        sv = (rng.choice([v for v in FLOAT_VALUES if v not in values] or [4]),)
+        sv = (rng.choice([5000, -5000, 4]),)          # mostly beyond the leaves' range: a stale range that survives shows at the root
     elif mode == "Int":
         sv = (min(INT_MAX[dtag], floor + 77),)
     else:
@@ -250,7 +245,9 @@ def make_case(rng, cid, T, depth, fmt, dtag, run="serial", pleaf=None, stale_p=0
     # version without the extreme pixels, then PyramidIO.update_image painting the final pixels in)
     negzero = mode == "Float" and rng.random() < (0.5 if shape in ("zero-min", "zero-max") else 0.15)
     rewrite = fmt in ("fits", "npy") and rng.random() < (rewrite_p if rewrite_p is not None else 0.15)
-    return {"id": cid, "T": T, "depth": depth, "fmt": fmt, "dtag": dtag, "mode": mode, "run": run, "keepu": bool(keepu),
+    names = DIR_NAMES + (DIR_NAMES_GLOB if GLOB_DIRS[0] else [])
+    return {"dirname": rng.choice(names), "spelling": rng.choice(SPELLINGS), "fmt_route": rng.choice(["explicit", "explicit", "guessed"]),
+            "id": cid, "T": T, "depth": depth, "fmt": fmt, "dtag": dtag, "mode": mode, "run": run, "keepu": bool(keepu),
             "leaves": leaves, "stale": stale, "live": live, "sv": sv, "scale": scale,
             "has_data": bool(has_data), "has_finite": has_finite, "negzero": negzero, "rewrite": rewrite}
 
@@ -523,7 +520,31 @@ def _write_twice(pio, pos, arr, meta):
         img.update_into_maskable_buffer(basis, slice(None), slice(None), slice(None), slice(None))
 
 
-def _run_cascade(pio, base, meta, rec, run):
+# the NAME and SPELLING of the directory the cascade is given, and the route by which the tile format is determined
+DIR_NAMES = ["tiles", "out.d", "survey-dr2.1/tiles", "m31 v1.0 (final)", "p\u00e4th.\u00fc", "x.npy", "a*b"]
+# names holding glob character classes: the format guess of the unchanged tree misses them (fixes/C02-format-guess-glob-escape.diff);
+# kept out of the quick tier until that repair is in the tree
+DIR_NAMES_GLOB = ["tiles[1]", "run[0-9]"]
+GLOB_DIRS = [False]        # switched on by run() in the thorough tier
+SPELLINGS = ["abs", "abs/", "./rel", "./rel/"]
+
+
+def _handle(base, root, meta):
+    """The PyramidIO / directory argument of the cascade under test: spelled and formatted as the case says."""
+    from toasty.pyramid import PyramidIO
+    spelling = meta.get("spelling", "abs")
+    spelled = base
+    if spelling.startswith("./rel"):
+        os.chdir(root)
+        spelled = "./" + os.path.relpath(base, root)
+    if spelling.endswith("/"):
+        spelled += "/"
+    explicit = meta.get("fmt_route", "explicit") == "explicit"
+    pio = PyramidIO(spelled, default_format=meta["fmt"]) if explicit else PyramidIO(spelled)
+    return pio, spelled, explicit
+
+
+def _run_cascade(pio, base, meta, rec, run, spelled=None, explicit=True):
     """Run one flavour of the real cascade.  Returns extra observations (builder runs)."""
     from toasty.merge import cascade_images, averaging_merger
     depth = meta["depth"]
@@ -534,7 +555,8 @@ def _run_cascade(pio, base, meta, rec, run):
     obs = {}
     if run.startswith("cli"):
         from toasty import cli
-        cli.entrypoint(["cascade", "--parallelism", str(par), "--format", meta["fmt"], "--start", str(depth), base])
+        cli.entrypoint(["cascade", "--parallelism", str(par)] + (["--format", meta["fmt"]] if explicit else [])
+                       + ["--start", str(depth), spelled or base])
     elif run.startswith("filter"):
         live = set(tuple(p) for p in rec["live"])
         accept = set(ancestor(l, n) for l in live for n in range(1, depth + 1))
@@ -575,7 +597,10 @@ def replay_case(job):
     def add(prop, sev, key, msg):
         out.append((prop, sev, key, "%s [case %s: %s depth %d T %d run %s]" % (msg, meta["id"], fam, depth, T, run)))
 
-    base = tempfile.mkdtemp(prefix="c02-", dir=meta["scratch"])
+    root = tempfile.mkdtemp(prefix="c02-", dir=meta["scratch"])
+    base = os.path.join(root, meta.get("dirname", "tiles"))
+    os.makedirs(base)
+    spelled, explicit = base, True
     old = signal.signal(signal.SIGALRM, _alarm)
     signal.alarm(120)
     try:
@@ -604,10 +629,13 @@ def replay_case(job):
             return out, {"tiles": 0}
         twin = None
         if runkind == "parallel":
-            twin = base + "-serial"
-            shutil.copytree(base, twin)
+            shutil.copytree(root, root + "-serial")
+            twin = os.path.join(root + "-serial", meta.get("dirname", "tiles"))
+        if not meta["run"].startswith("twice-"):
+            # the leaves were written through an explicit handle; the cascade gets its own, as the case spells it
+            pio, spelled, explicit = _handle(base, root, meta)
         try:
-            obs = _run_cascade(pio, base, meta, rec, run)
+            obs = _run_cascade(pio, base, meta, rec, run, spelled, explicit)
         except _Timeout:
             raise
         except BaseException as e:  # noqa - SystemExit from the CLI included
@@ -641,6 +669,11 @@ def replay_case(job):
                 break
         # ---- C14 observations ride on the same run
         if fmt == "fits" and rec["ranged"] and not rec["keepu"]:
+            ghosts = [p for p in sorted(set(found) - set(final)) if p[0] < depth]
+            if ghosts:
+                _a, hdr = load_raw(found[ghosts[0]], fmt)
+                add("C14", "V", "tile-range:%s" % runkind, "tile %s records %s although no leaf tile lies beneath it (a file left by an earlier "
+                    "cascade): its range describes data that does not exist and reaches its ancestors" % (ghosts[0], hdr))
             lost = [p for p in sorted(set(final) - set(found)) if final[p]["rng"] and p[0] < depth]
             if lost:
                 add("C14", "V", "tile-range:%s" % runkind, "tile %s is missing although leaf tiles with finite values lie beneath it: "
@@ -705,8 +738,9 @@ def replay_case(job):
     finally:
         signal.alarm(0)
         signal.signal(signal.SIGALRM, old)
-        shutil.rmtree(base, ignore_errors=True)
-        shutil.rmtree(base + "-serial", ignore_errors=True)
+        os.chdir(meta["scratch"])
+        shutil.rmtree(root, ignore_errors=True)
+        shutil.rmtree(root + "-serial", ignore_errors=True)
 
 
 def _quiet_worker():
@@ -729,6 +763,9 @@ def report(ctx, prop, jobs, results):
             elif p != prop:
                 continue
             elif sev == "V":
+                if meta.get("dirname") in DIR_NAMES_GLOB and meta.get("fmt_route") == "guessed":
+                    key += ":guessed-format-in-glob-named-directory"
+                    msg += " [directory %r, format guessed from its content]" % meta["dirname"]
                 ctx.violation("%s:%s:%s" % (prop, key, meta["fmt"]), msg, {"meta": _plain(meta), "given": rec["given"], "init_stale": [t["pos"] for t in rec["init"] if t["pos"][0] < meta["depth"]]})
             else:
                 ctx.drift("%s %s" % (key, msg))
@@ -771,7 +808,8 @@ def enum_meta(rec, i, scratch):
     fmt = "fits" if rec["bottomup"] else "npy"
     return {"id": "enum-%d" % i, "T": 2, "depth": 1, "fmt": fmt, "dtag": "f4" if i % 3 else "f8", "mode": "Float",
             "run": "serial" if i % 5 else "cli", "scale": 1.0, "scratch": scratch,
-            "negzero": i % 4 == 1, "rewrite": i % 3 == 1}
+            "negzero": i % 4 == 1, "rewrite": i % 3 == 1, "dirname": DIR_NAMES[i % len(DIR_NAMES)], "spelling": SPELLINGS[i % 4],
+            "fmt_route": "guessed" if i % 2 else "explicit"}
 
 
 QUICK_PLAN = [
@@ -910,6 +948,208 @@ def plan_binding(ctx, prop, plan, parallel_plan, only_fits=False, builder_runs=0
                     c["run"] = "builder"
         tasks.append({"name": "MC%sd3" % prop, "T": 8, "depth": 3, "cases": cases, "chunk": 3, "window": 2})
     return tasks
+
+
+# ------------------------------------------------------------------------------------------------
+# the tile_fits / FitsTiler workflow (shared with checks/c14.py)
+# ------------------------------------------------------------------------------------------------
+
+# (RA, Dec of the centre, lowest value, highest value): far apart on the sky, distinct value ranges
+WF_IMAGES = [(30.0, 30.0, 100.0, 200.0), (210.0, -30.0, 1.0, 2.0), (300.0, 20.0, -50.0, -40.0)]
+
+
+def workflow_run(args):
+    """Real run: toasty.tile_fits in TOAST mode on tiny FITS images, then read EVERYTHING back with astropy:
+    the finite data range of every leaf file (ground truth), the cards of every tile, the Builder, the WTML."""
+    scratch, order, start, parallel = args[:4]
+    tan_shape = args[4] if len(args) > 4 else None      # TAN route: one image of this (height, width), depth chosen by toasty
+    integer = args[5] if len(args) > 5 else False       # integer-valued pixels (so that TLC can take the stored base layer)
+    repo.setup()
+    import glob
+    import os
+    import tempfile
+    import warnings
+    import xml.etree.ElementTree as ET
+    import numpy as np
+    from astropy.io import fits
+    from astropy.wcs import WCS
+    warnings.simplefilter("ignore")
+    work = tempfile.mkdtemp(prefix="c14wf-", dir=scratch)
+    paths = []
+    n = 24
+    for k in order:
+        ra, dec, lo, hi = WF_IMAGES[k]
+        ny, nx = tan_shape or (n, n)
+        w = WCS(naxis=2)
+        w.wcs.ctype = ["RA---TAN", "DEC--TAN"]
+        w.wcs.crval = [ra, dec]
+        w.wcs.crpix = [nx / 2 + 0.5, ny / 2 + 0.5]
+        w.wcs.cdelt = [-0.1, 0.1] if tan_shape is None else [-0.001, 0.001]
+        data = np.linspace(lo, hi, ny * nx, dtype=np.float32).reshape((ny, nx))
+        if integer:
+            data = np.round(data * (50 if hi - lo < 5 else 1)).astype(np.float32)
+        data[3, 5] = np.nan
+        path = os.path.join(work, "img%d.fits" % k)
+        fits.writeto(path, data, header=w.to_header(), overwrite=True)
+        paths.append(path)
+    out = os.path.join(work, "tiled")
+    obs = {"out": out, "order": list(order), "start": start, "parallel": parallel, "error": None, "leaves": {}, "tiles": {},
+           "route": "TOAST" if tan_shape is None else "TAN %dx%d" % (tan_shape[1], tan_shape[0])}
+    try:
+        from toasty import TilingMethod, tile_fits
+        if tan_shape is None:
+            _dir, bld = tile_fits(fits=paths, out_dir=out, tiling_method=TilingMethod.TOAST, parallel=parallel, override=True, start=start)
+        else:
+            _dir, bld = tile_fits(fits=paths, out_dir=out, tiling_method=TilingMethod.TAN, parallel=parallel, override=True)
+            start = obs["start"] = int(bld.imgset.tile_levels)
+        obs["imgset"] = (float(bld.imgset.data_min), float(bld.imgset.data_max))
+    except BaseException as e:  # noqa
+        obs["error"] = repr(e)
+        return obs
+    found, _other = scan_tiles(out, "fits")
+    for pos, path in found.items():
+        with fits.open(path) as hdul:
+            hdr = dict((k, float(hdul[0].header[k])) for k in ("DATAMIN", "DATAMAX") if k in hdul[0].header)
+            obs["tiles"][pos] = hdr
+            if pos[0] == start:
+                d = np.asarray(hdul[0].data)
+                d = d[np.isfinite(d)]
+                obs["leaves"][pos] = (float(d.min()), float(d.max())) if d.size else None
+    wtml = os.path.join(out, "index_rel.wtml")
+    if os.path.exists(wtml):
+        obs["wtml"] = [(float(e.get("DataMin", "0")), float(e.get("DataMax", "0"))) for e in ET.parse(wtml).getroot().iter("ImageSet")]
+    return obs
+
+
+
+def deep_prepare(ctx, pool_map):
+    """C02 side of the workflow: real tile_fits TOAST runs (integer-valued images of disjoint footprints, several input
+    orders), then (a) Cascade.tla cases over the stored base tiles for the expected tile SET and (b) MCDeep's input: the
+    base layer as stored + the pixels of every tile above it that TLC is asked to compute."""
+    import itertools
+    import json
+    import numpy as np
+    from astropy.io import fits
+    quick = ctx.quick
+    orders = [(0, 1), (1, 0), (0, 1, 2), (2, 1, 0)] if quick else (list(itertools.permutations(range(2))) + list(itertools.permutations(range(3))))
+    runs = [(ctx.scratch, o, 3, 1, None, True) for o in orders]
+    if not quick:
+        runs += [(ctx.scratch, (1, 2, 0), 4, 1, None, True), (ctx.scratch, (0, 1), 3, 2, None, True), (ctx.scratch, (0,), 3, 1, None, True)]
+    observed = pool_map(workflow_run, runs)
+    cases, table, wants = [], [], []
+    for i, obs in enumerate(observed):
+        ctx.count()
+        what = "tile_fits TOAST images %s start %d parallel %d" % (obs["order"], obs["start"], obs["parallel"])
+        if obs["error"]:
+            ctx.violation("C02:workflow-raised:fits", "%s raised %s" % (what, obs["error"]), {"order": obs["order"]})
+            continue
+        depth = obs["start"]
+        found, _o = scan_tiles(obs["out"], "fits")
+        arrays = {}
+        for pos, path in found.items():
+            with fits.open(path) as hdul:
+                arrays[pos] = np.array(hdul[0].data, dtype=np.float64)
+        leaves_json, leaf_cases, boxes = [], {}, {}
+        for pos, a in sorted(arrays.items()):
+            if pos[0] != depth:
+                continue
+            ok = np.isfinite(a)
+            if not ok.any():
+                continue
+            if not np.array_equal(a[ok], np.round(a[ok])):
+                ctx.machinery("%s: base tile %s holds non-integer values" % (what, pos))
+            rr, cc = np.where(ok.any(axis=1))[0], np.where(ok.any(axis=0))[0]
+            r0, r1, c0, c1 = rr[0], rr[-1], cc[0], cc[-1]
+            box = a[r0:r1 + 1, c0:c1 + 1]
+            leaves_json.append({"pos": list(pos), "r0": int(r0) + 1, "c0": int(c0) + 1,
+                                "rows": [[[] if not np.isfinite(v) else [int(v)] for v in row] for row in box]})
+            boxes[pos] = (r0, r1, c0, c1)
+            leaf_cases[pos] = (((1,), ()), ((), ()))          # for the tile set only: "holds a defined pixel"
+        # pixels to evaluate: where the base layer's data lands in each tile above it (+ a seeded scatter), chosen from the
+        # stored files; TLC decides what must be there
+        rng = np.random.default_rng(ctx.seed + i)
+        want = []
+        above = sorted(set(ancestor(l, n) for l in boxes for n in range(depth)) | set(p for p in arrays if p[0] < depth))
+        for p in above:
+            h = depth - p[0]
+            picks = set((int(r), int(c)) for r, c in rng.integers(0, TILE, size=(60, 2)))
+            for l, (r0, r1, c0, c1) in boxes.items():
+                if ancestor(l, p[0]) != p:
+                    continue
+                # leaf file rows -> display rows -> position inside the ancestor (display) -> file rows again (fits: bottom-up)
+                dy0, dy1 = (TILE - 1 - r1), (TILE - 1 - r0)
+                oy = (l[2] - (p[2] << h)) * TILE
+                ox = (l[1] - (p[1] << h)) * TILE
+                ys = range((oy + dy0) >> h, ((oy + dy1) >> h) + 1)
+                xs = range((ox + c0) >> h, ((ox + c1) >> h) + 1)
+                cells = [(TILE - 1 - y, x) for y in ys for x in xs]
+                if len(cells) > 150:
+                    cells = [cells[k] for k in rng.choice(len(cells), size=150, replace=False)]
+                picks.update(cells)
+            for r, c in sorted(picks):
+                want.append({"pos": list(p), "r": r + 1, "c": c + 1})
+        table.append({"n": TILE, "depth": depth, "bottomup": True, "leaves": leaves_json, "want": want})
+        wants.append((obs, what, arrays, want))
+        cases.append({"id": 8000 + i, "T": 2, "depth": depth, "fmt": "fits", "dtag": "f4", "mode": "Float", "run": "workflow",
+                      "keepu": False, "leaves": leaf_cases, "stale": set(), "live": set(leaf_cases), "sv": (0,), "scale": 1.0,
+                      "has_data": True, "has_finite": True, "negzero": False, "rewrite": False,
+                      "found": sorted(found), "what": what, "compare": ("checks.c02", "deep_tileset_compare")})
+    path = os.path.join(ctx.scratch, "deep-in.json")
+    with open(path, "w") as f:
+        json.dump(table, f)
+    tasks = {}
+    for c in cases:
+        tasks.setdefault(c["depth"], []).append(c)
+    tasks = [{"name": "MCC02wf%d" % d, "T": 2, "depth": d, "cases": cs, "chunk": 60, "window": 2 if d >= 3 else None} for d, cs in sorted(tasks.items())]
+    return tasks, wants, path
+
+
+def deep_tileset_compare(meta, rec):
+    """The tiles tile_fits left above the base layer must be exactly those of a cascade whose filter accepts every
+    populated tile (TLC's final directory for the stored base tiles)."""
+    want = set(tuple(t["pos"]) for t in rec["final"])
+    got = set(tuple(p) for p in meta["found"])
+    out = []
+    if want != got:
+        out.append(("C02", "V", "workflow-tile-set", "tiles missing %s, unexpected %s [%s]" % (sorted(want - got), sorted(got - want), meta["what"])))
+    return out, {"tiles": len(want)}
+
+
+def deep_tlc(ctx, in_path):
+    import json
+    out_path = os.path.join(ctx.scratch, "deep-out.json")
+    ctx.tlc("MCDeep", cfg_text="CONSTANTS\n T = 2\n", env={"IN": in_path, "OUT": out_path}, workers=1, timeout=3600, count=False)
+    with open(out_path) as f:
+        return json.load(f)
+
+
+def deep_compare(ctx, wants, expected):
+    import numpy as np
+    if len(expected) != len(wants):
+        ctx.machinery("MCDeep returned %d pyramids for %d" % (len(expected), len(wants)))
+        return
+    npx = 0
+    for (obs, what, arrays, want), exp in zip(wants, expected):
+        ctx.trace_ok()
+        maxabs = max([float(np.nanmax(np.abs(a))) for a in arrays.values() if np.isfinite(a).any()] or [1.0])
+        bad = None
+        for w, e in zip(want, exp):
+            p = tuple(w["pos"])
+            npx += 1
+            ev = np.nan if e[1] == 0 else e[0] / e[1]
+            if p not in arrays:
+                if not np.isnan(ev) and bad is None:
+                    bad = "tile %s is missing although TLC finds defined pixels in it (e.g. stored pixel (%d, %d) = %r)" % (p, w["r"] - 1, w["c"] - 1, ev)
+                continue
+            gv = float(arrays[p][w["r"] - 1, w["c"] - 1])
+            tol = 2.0 * np.finfo(np.float32).eps * (obs["start"] - p[0]) * maxabs
+            same = (np.isnan(ev) and np.isnan(gv)) or (not np.isnan(ev) and not np.isnan(gv) and abs(ev - gv) <= tol)
+            if not same and bad is None:
+                bad = "tile %s, stored pixel (row %d, col %d) holds %r, the reduction of the stored base layer gives %r" % (p, w["r"] - 1, w["c"] - 1, gv, ev)
+        ctx.distinct(("workflow", tuple(obs["order"]), obs["start"], obs["parallel"]))
+        if bad:
+            ctx.violation("C02:workflow-pixels:fits", "%s [%s]" % (bad, what), {"order": obs["order"], "start": obs["start"]})
+    ctx.note("workflow_toast", {"runs": len(wants), "pixels_compared": npx})
 
 
 # ------------------------------------------------------------------------------------------------
@@ -1100,18 +1340,6 @@ def lossy_compare(ctx, runs, parents, expected):
                            "fully_through_tlc": len([1 for _o, _p, _k, w in parents if not w])})
 
 
-def lossy_prepare(ctx):
-    """Real runs (own short-lived pool, before any thread exists) + MCLossy input."""
-    import concurrent.futures as cf
-    import multiprocessing as mp
-    pops = LOSSY_POPULATIONS[:1] if ctx.quick else LOSSY_POPULATIONS
-    args = [(ctx.scratch, i, ctx.seed, d, ls, "serial" if i % 2 == 0 else "cli", i in (0, 2)) for i, (d, ls) in enumerate(pops)]
-    with cf.ProcessPoolExecutor(max_workers=4, mp_context=mp.get_context("fork"), initializer=_quiet_worker) as ex:
-        runs = list(ex.map(lossy_real_run, args))
-    parents, in_path = lossy_observe(ctx, runs, full_all=not ctx.quick)
-    return runs, parents, in_path
-
-
 def _warm():
     import time
     time.sleep(0.3)
@@ -1196,6 +1424,7 @@ def run(ctx):
                 "TOAST-filtered / 2-3 real worker processes) and every file compared. distinct = distinct (format, dtype, depth, run, "
                 "leaves+stale digest); non-trivial = at least one tile above the start level expected")
     quick = ctx.quick
+    GLOB_DIRS[0] = not quick
     # ---- depth-1 family enumerated by TLC itself (T = 2): all 16 leaf subsets x matrices, both row orders, stale files
     tasks = [{"name": "MCC02enum", "T": 2, "depth": 1, "expr": enum_family_expr(quick),
               "family": "each of the 4 leaves absent or one of %s" % ("3 matrices, both row orders" if quick else "all 16 matrices over {U,1} bottom-up (17^4 populations) + 3 matrices top-down")}]
@@ -1205,9 +1434,20 @@ def run(ctx):
         step = 3 if quick else 6
         return [(enum_meta(rec, i, ctx.scratch), rec) for i, rec in enumerate(recs) if i % step == 0]
     # ---- the lossy format: real jpg cascades of noisy tiles first, TLC evaluates the stored children alongside the rest
-    lossy_runs, lossy_parents, lossy_in = lossy_prepare(ctx)
-    jobs, results, extra = run_pipeline(ctx, tasks, enum_jobs, extra=[lambda: lossy_tlc(ctx, lossy_in)])
+    # ---- and the pyramid a whole workflow leaves behind (tile_fits, TOAST, several images): real runs first as well
+    import concurrent.futures as cf
+    import multiprocessing as mp
+    with cf.ProcessPoolExecutor(max_workers=8, mp_context=mp.get_context("fork"), initializer=_quiet_worker) as ex:
+        pops = LOSSY_POPULATIONS[:1] if quick else LOSSY_POPULATIONS
+        largs = [(ctx.scratch, i, ctx.seed, d, ls, "serial" if i % 2 == 0 else "cli", i in (0, 2)) for i, (d, ls) in enumerate(pops)]
+        lossy_futs = [ex.submit(lossy_real_run, a) for a in largs]
+        deep_tasks, deep_wants, deep_in = deep_prepare(ctx, lambda fn, args: [f.result() for f in [ex.submit(fn, a) for a in args]])
+        lossy_runs = [f.result() for f in lossy_futs]
+    lossy_parents, lossy_in = lossy_observe(ctx, lossy_runs, full_all=not quick)
+    tasks += deep_tasks
+    jobs, results, extra = run_pipeline(ctx, tasks, enum_jobs, extra=[lambda: lossy_tlc(ctx, lossy_in), lambda: deep_tlc(ctx, deep_in)])
     lossy_compare(ctx, lossy_runs, lossy_parents, extra[0])
+    deep_compare(ctx, deep_wants, extra[1])
     ctx.exhaustive = False
     if not jobs:
         ctx.machinery("no cases")
